@@ -59,6 +59,9 @@ class C01(InvProp):
         return [dict(c) for c in CLAUSES] + super().corpus()
 
     def cases(self, tier, seed):
+        for j in range(14 if tier == "quick" else 200):
+            rr = Rng(seed, "C01:scale", j)
+            yield GI2.scale_inventory(rr, tier, kind=rr.choice(["chain", "fan", "diamond_grid", "long_names", "deep_dirs"]))
         N = 250 if tier == "quick" else 6000
         for i in range(N):
             r = Rng(seed, "C01", i)
@@ -71,6 +74,14 @@ class C01(InvProp):
                                      relative=r.choice([50, 100]), n_nodes=r.range(1, 3))
                 if GI2.add_aliases(r, c):
                     c["fam"] = "aliases"
+                    yield c
+            if i % 5 == 2:
+                # a class file is edited in place between two renders of the same instance
+                c = GI.gen_inventory(r, n_classes=r.range(2, 5), shape=r.choice(["tree", "dag", "chain"]), n_nodes=r.range(1, 3), param_refs=40)
+                st = GI2.rewrite_step(r, c)
+                if st:
+                    c["lifecycle"] = [st] if r.chance(2, 3) else [{"render_inventory": 1}, st]
+                    c["fam"] = "rewrite"
                     yield c
             if i % 8 == 3:
                 c = GI.gen_inventory(r, n_classes=r.range(1, 3), shape="tree", n_nodes=1)
